@@ -122,8 +122,8 @@ def child_nodes(node, with_typedef_body=False):
     return out
 
 
-def own_expressions(node):
-    """expression roots held directly by ``node`` (not those of child nodes)"""
+def own_expression_fields(node):
+    """[(field name, expression root)] held directly by ``node`` (not those of child nodes)"""
     ir, _ = _classes()
     if isinstance(node, ir.TypeDef):
         return []
@@ -133,15 +133,21 @@ def own_expressions(node):
             continue
         if _expr_field_excluded(node, name):
             continue
-        _split_value(v, [], out)
+        roots = []
+        _split_value(v, [], roots)
+        out.extend((name, r) for r in roots)
     if isinstance(node, ir.VariableDeclaration):
         # declaration initialisers live in the symbol's type
         for s in node.symbols:
             t = getattr(s, 'type', None)
             init = getattr(t, 'initial', None) if t is not None else None
             if init is not None and is_expr(init):
-                out.append(init)
+                out.append(('symbols.type.initial', init))
     return out
+
+
+def own_expressions(node):
+    return [r for _, r in own_expression_fields(node)]
 
 
 def preorder(root, with_typedef_body=False):
@@ -182,85 +188,101 @@ def preorder_paths(root):
 # --------------------------------------------------------------------------
 
 def expr_children(e):
-    """direct sub-expressions (and non-expression constants) of one expression node"""
+    """direct sub-expressions of one expression node as (role, child) pairs"""
     from loki.expression import symbols as sym
     from loki.expression import operations as op
     from loki.expression import literals as lit
     import pymbolic.primitives as p
 
-    def seq(v):
+    def seq(role, v):
         if v is None:
             return []
         if isinstance(v, (tuple, list)):
             r = []
             for x in v:
-                r.extend(seq(x))
+                r.extend(seq(role, x))
             return r
-        return [v]
+        return [(role, v)]
 
     if isinstance(e, sym.MetaSymbol):            # Scalar, Array: wrapper around symbol / subscript
-        return [e._symbol]
+        return [('symbol', e._symbol)]
     if isinstance(e, (sym.ArraySubscript, sym.StringSubscript)):
-        return [e.aggregate] + seq(e.index)
+        return [('aggregate', e.aggregate)] + seq('index', e.index)
     if isinstance(e, sym.TypedSymbol):           # VariableSymbol, DeferredTypeSymbol, ProcedureSymbol, DerivedTypeSymbol
-        return [e.parent] if e.parent is not None else []
+        return [('parent', e.parent)] if e.parent is not None else []
     if isinstance(e, (lit.IntLiteral, lit.FloatLiteral)):
-        return [e.kind] if e.kind is not None and is_expr(e.kind) else []
+        return [('kind', e.kind)] if e.kind is not None and is_expr(e.kind) else []
     if isinstance(e, (lit.LogicLiteral, lit.StringLiteral, lit.IntrinsicLiteral)):
         return []
     if isinstance(e, lit.LiteralList):
-        return [x for x in e.elements if not isinstance(x, str)]
+        return [('elements', x) for x in e.elements if not isinstance(x, str)]
     if isinstance(e, sym.InlineDo):
-        return seq(e.values) + [e.variable, e.bounds]
+        return seq('values', e.values) + [('variable', e.variable), ('bounds', e.bounds)]
     if isinstance(e, op.Cast):
-        return [e.function] + seq(e.parameters) + ([e.kind] if e.kind is not None else [])
+        return [('function', e.function)] + seq('parameters', e.parameters) + ([('kind', e.kind)] if e.kind is not None else [])
     if isinstance(e, sym.InlineCall):
-        return [e.function] + seq(e.parameters) + list(e.kw_parameters.values())
+        return [('function', e.function)] + seq('parameters', e.parameters) + [('kw_parameters', v) for v in e.kw_parameters.values()]
     if isinstance(e, sym.Range):
-        return [c for c in e.children if c is not None]
+        return [('children', c) for c in e.children if c is not None]
     if isinstance(e, (op.Reference, op.Dereference)):
-        return [e.expression]
+        return [('expression', e.expression)]
     if isinstance(e, (p.Sum, p.Product, p.LogicalAnd, p.LogicalOr, op.StringConcat, p.Min, p.Max)):
-        return list(e.children)
+        return [('children', c) for c in e.children]
     if isinstance(e, (p.Quotient, p.FloorDiv, p.Remainder)):
-        return [e.numerator, e.denominator]
+        return [('numerator', e.numerator), ('denominator', e.denominator)]
     if isinstance(e, p.Power):
-        return [e.base, e.exponent]
+        return [('base', e.base), ('exponent', e.exponent)]
     if isinstance(e, p.Comparison):
-        return [e.left, e.right]
+        return [('left', e.left), ('right', e.right)]
     if isinstance(e, p.LogicalNot):
-        return [e.child]
+        return [('child', e.child)]
     if isinstance(e, p.If):
-        return [e.condition, e.then, e.else_]
+        return [('condition', e.condition), ('then', e.then), ('else_', e.else_)]
     if isinstance(e, p.Call):
-        return [e.function] + seq(e.parameters)
+        return [('function', e.function)] + seq('parameters', e.parameters)
     if isinstance(e, p.Variable):
         return []
     raise NotImplementedError(f'lokiverif.irtree.walk: no child table for expression class {type(e).__name__}')
 
 
-def expr_walk(e, out=None):
-    """all expression-node occurrences (objects) in the tree rooted at ``e``"""
+def expr_walk(e, out=None, via=None, info=None):
+    """
+    all expression-node occurrences (objects) in the tree rooted at ``e``.
+    ``info`` (dict id -> 'ParentClass.role') records how each occurrence is reached.
+    """
     if out is None:
         out = []
     if not is_expr(e):
         return out
     out.append(e)
-    for c in expr_children(e):
-        expr_walk(c, out)
+    if info is not None and via is not None:
+        info.setdefault(id(e), via)
+    for role, c in expr_children(e):
+        expr_walk(c, out, f'{type(e).__name__}.{role}', info)
     return out
 
 
-def occurrences(root, pred):
+def occurrences(root, pred, info=None, skip_fields=()):
     """
     reference for the expression finders: [(ir node, [matching expression objects])]
-    for every node (pre-order, not entering TypeDef) that holds matching occurrences
+    for every node (pre-order, not entering TypeDef) that holds matching occurrences.
+    ``info``: dict id(expr) -> ('NodeClass.field', 'ParentExprClass.role' | 'NodeClass.field')
     """
     res = []
     for n in preorder(root):
         found = []
-        for r in own_expressions(n):
-            found.extend(x for x in expr_walk(r) if pred(x))
+        for fname, r in own_expression_fields(n):
+            via = f'{type(n).__name__}.{fname}'
+            if via in skip_fields:
+                continue
+            if info is not None:
+                sub = {}
+                occ = expr_walk(r, None, via, sub)
+                for x in occ:
+                    info.setdefault(id(x), (via, sub.get(id(x), via)))
+            else:
+                occ = expr_walk(r)
+            found.extend(x for x in occ if pred(x))
         if found:
             res.append((n, found))
     return res
